@@ -26,16 +26,10 @@ theorem flag_sup_eq_through_sub : supTables.flags.supEqThroughSub = true := by d
 theorem flag_phasor_omega_checked : supTables.flags.phasorOmegaChecked = true := by decide
 theorem flag_phasor_zero_escapes : supTables.flags.phasorZeroEscapes = true := by decide
 
-/-- `is_undefined` is False for the classes with a defined quantity (so `__add__` never re-labels
-    a typed operand).
-    PARTIAL: the squared immittances are excluded -- ImpedanceSquaredMixin / AdmittanceSquaredMixin do
-    not derive from `Quantity` and do not set `is_undefined = False`, so their classes inherit
-    `is_undefined = True` from the generic expression class and a Superposition re-labels them
-    (finding C18-F28; real results are reported by the oracle).
-    Full statement: `∀ q ∈ Quantity.all, q.isDefined = true → isUndefinedFlag tables q = false`. -/
-theorem defined_quantities_not_undefined_flag_partial :
-    ∀ q ∈ Quantity.all, q.isDefined = true → q ≠ .impedancesquared → q ≠ .admittancesquared →
-      isUndefinedFlag tables q = false := by decide
+/-- `is_undefined` is False for every class with a defined quantity (so `__add__` never re-labels
+    a typed operand; false for the squared immittances before the fix of finding C18-F28) -/
+theorem defined_quantities_not_undefined_flag :
+    ∀ q ∈ Quantity.all, q.isDefined = true → isUndefinedFlag tables q = false := by decide
 
 /-- the decomposition keys: time-like domains go under 't', Laplace under 's', the two Fourier
     domains under their own keys; no other domain has a key (such operands are refused) -/
@@ -62,20 +56,17 @@ theorem sup_add_refuses_superposition (hf : S.flags.supAddChecksQuantity = true)
     (hne : q ≠ qS) : supAdd T S qS (.sup q) = .err .quantities := by
   simp [supAdd, hf, hne]
 
-/-- the instance for the code as it is now: every defined quantity but the squared immittances
-    (PARTIAL for the reason given at `defined_quantities_not_undefined_flag_partial`, C18-F28) -/
-theorem sup_add_refuses_quantities_now_partial (qS : Quantity) (x : Opd) (hd : x.q.isDefined = true)
-    (h1 : x.q ≠ .impedancesquared) (h2 : x.q ≠ .admittancesquared) (hne : x.q ≠ qS) :
-    supAdd tables supTables qS (.ex x) = .err .quantities :=
+/-- the instance for the code as it is now: every defined quantity -/
+theorem sup_add_refuses_quantities_now (qS : Quantity) (x : Opd) (hd : x.q.isDefined = true)
+    (hne : x.q ≠ qS) : supAdd tables supTables qS (.ex x) = .err .quantities :=
   sup_add_refuses_quantities tables supTables flag_sup_add_checks_quantity qS x
-    (defined_quantities_not_undefined_flag_partial x.q (quantity_mem_all x.q) hd h1 h2) hne
+    (defined_quantities_not_undefined_flag x.q (quantity_mem_all x.q) hd) hne
 
 /-- `-` is `+` of the negated operand, `==` goes through `-`: a refused operand is never equal -/
-theorem sup_sub_eq_refuse_partial (qS : Quantity) (x : Opd) (hd : x.q.isDefined = true)
-    (h1 : x.q ≠ .impedancesquared) (h2 : x.q ≠ .admittancesquared) (hne : x.q ≠ qS) :
+theorem sup_sub_eq_refuse (qS : Quantity) (x : Opd) (hd : x.q.isDefined = true) (hne : x.q ≠ qS) :
     supSub tables supTables qS (.ex x) = .err .quantities ∧
     supEqCompares tables supTables qS (.ex x) = false := by
-  have h := sup_add_refuses_quantities_now_partial qS x hd h1 h2 hne
+  have h := sup_add_refuses_quantities_now qS x hd hne
   exact ⟨h, by simp [supEqCompares, supSub, h]⟩
 
 /-- an accepted sum is a Superposition of the SAME quantity, and whatever is stored carries it -/
